@@ -18,7 +18,7 @@ ParseU(bs, pos) ==
     IF pos > Len(bs) THEN [ok |-> FALSE, v |-> 0, next |-> pos]
     ELSE IF bs[pos] <= 127 THEN [ok |-> TRUE, v |-> bs[pos], next |-> pos + 1]
     ELSE LET n == bs[pos] - 128 IN
-         IF n > 8 \/ n < 1 \/ pos + n > Len(bs) THEN [ok |-> FALSE, v |-> 0, next |-> pos]
+         IF n > 4 \/ n < 1 \/ pos + n > Len(bs) \/ (n = 4 /\ bs[pos + 1] > 127) THEN [ok |-> FALSE, v |-> 0, next |-> pos]      \* values below 2^31 only (TLC integers are 32 bit)
          ELSE [ok |-> TRUE, v |-> BigEndian(bs, pos + 1, n), next |-> pos + n + 1]
 RECURSIVE NBytes(_)
 NBytes(x) == IF x < 256 THEN 1 ELSE 1 + NBytes(x \div 256)
@@ -28,13 +28,15 @@ EncU(x) == IF x <= 127 THEN <<x>> ELSE <<128 + NBytes(x)>> \o BytesOf(x, NBytes(
 
 RECURSIVE ParseUs(_, _, _, _)          \* k unsigned values -> [ok, vs, next]
 ParseUs(bs, pos, k, acc) ==
-    IF k = 0 THEN [ok |-> TRUE, vs |-> acc, next |-> pos]
+    IF k > Len(bs) THEN [ok |-> FALSE, vs |-> acc, next |-> pos]          \* more items announced than bytes exist
+    ELSE IF k = 0 THEN [ok |-> TRUE, vs |-> acc, next |-> pos]
     ELSE LET u == ParseU(bs, pos) IN
          IF ~u.ok THEN [ok |-> FALSE, vs |-> acc, next |-> pos] ELSE ParseUs(bs, u.next, k - 1, Append(acc, u.v))
 
 RECURSIVE ParseKids(_, _, _, _, _)     \* k (label, target index) pairs
 ParseKids(bs, pos, k, ls, ts) ==
-    IF k = 0 THEN [ok |-> TRUE, labels |-> ls, targets |-> ts, next |-> pos]
+    IF k > Len(bs) THEN [ok |-> FALSE, labels |-> ls, targets |-> ts, next |-> pos]
+    ELSE IF k = 0 THEN [ok |-> TRUE, labels |-> ls, targets |-> ts, next |-> pos]
     ELSE IF pos > Len(bs) THEN [ok |-> FALSE, labels |-> ls, targets |-> ts, next |-> pos]
     ELSE LET t == ParseU(bs, pos + 1) IN
          IF ~t.ok THEN [ok |-> FALSE, labels |-> ls, targets |-> ts, next |-> pos]
@@ -42,7 +44,8 @@ ParseKids(bs, pos, k, ls, ts) ==
 
 RECURSIVE ParseNodes(_, _, _, _, _)    \* k node records; ids = the id list
 ParseNodes(bs, pos, k, ids, acc) ==
-    IF k = 0 THEN [ok |-> TRUE, nodes |-> acc, next |-> pos]
+    IF k > Len(bs) THEN [ok |-> FALSE, nodes |-> acc, next |-> pos]
+    ELSE IF k = 0 THEN [ok |-> TRUE, nodes |-> acc, next |-> pos]
     ELSE LET h == ParseUs(bs, pos, 2, <<>>) IN
          IF ~h.ok \/ h.next > Len(bs) THEN [ok |-> FALSE, nodes |-> acc, next |-> pos]
          ELSE LET fin == bs[h.next]
